@@ -234,6 +234,8 @@ class HSym:
         return self._cmp_all('==', a, b)
 
     def ne(self, a, b):
+        if self.cin is not None:            # exact, as in pyvc.native (only equality is tolerant)
+            return s_not(self._cmp_all('==', a, b))
         return s_not(self.eq(a, b))
 
     def le(self, a, b):
